@@ -480,6 +480,19 @@ func (cu *CodeUtils) BuildFuncMap() template.FuncMap {
 			}
 			return prettifyBytesLiteral(fmt.Sprintf("%#v", bs))
 		},
+		// DistinctThrows drops throws entries whose Go type was already listed:
+		// a type switch must not name the same type twice, the first entry wins.
+		"DistinctThrows": func(fs []*Field) []*Field {
+			seen := make(map[string]bool)
+			ret := make([]*Field, 0, len(fs))
+			for _, f := range fs {
+				if k := string(f.GoTypeName()); !seen[k] {
+					seen[k] = true
+					ret = append(ret, f)
+				}
+			}
+			return ret
+		},
 		"ServiceThrows": func(svc *Service) []*Field {
 			fm := make(map[string]*Field)
 			for _, f := range svc.Functions() {
